@@ -1,5 +1,5 @@
 # C11 — control requests: serialised with data, answered once, never wedge or crash
-CLAIMED = False
+CLAIMED = True
 NOT_YET = "check under construction (nothing is claimed for it yet)"
 
 CFG = dict(
